@@ -24,13 +24,13 @@ def check(run):
     run.prove(_tree_theorems.C08)
     rng = run.rng
     quick = run.tier == "quick"
-    nseq = 60 if quick else 600
+    nseq = 100 if quick else 1000
     kinds = ["batch", "batch", "batch", "set", "app", "del", "range"]
     for backend in treegen.BACKENDS:
         seqs = []
         for k in range(nseq):
             depth = rng.choice([2, 3, 3, 4, 4, 5] if quick else [2, 3, 4, 5, 6])
-            seqs.append(treegen.gen_seq(rng, backend, depth, rng.randint(1, 10 if quick else 30), kinds, observe="obs"))
+            seqs.append(treegen.gen_seq(rng, backend, depth, rng.randint(1, 10 if quick else 30), kinds, observe="obs", prefill=0.6))
         if backend == "pm":
             # the main stream stays outside the open finding's shapes so that the rest of the space is checked cleanly
             clean = [[l for l in s if not pm_defect_shape(l)] for s in seqs]
@@ -38,16 +38,39 @@ def check(run):
             run.differential("batch-pm-defect-region", seqs, classify=classify_pm)
         else:
             run.differential(f"batch-{backend}", seqs)
+    # ---- the RLN API glue: set_leaves_from / init_tree_with_leaves / atomic_operation (u8 index list) on the default backend
+    def rln_shape(line):
+        w = line.split(" ")
+        if w[:2] == ["rln", "atomic"]:
+            return pm_defect_shape("batch " + " ".join(w[2:]))
+        return False
+
+    def classify_rln(seq, idx, impl, spec):
+        return "C08-pm-batch" if any(rln_shape(l) for l in seq[: idx + 1]) else None
+    rs = []
+    for k in range(12 if quick else 120):
+        seq = ["rln new"]
+        if rng.random() < 0.7:
+            seq.append("rln init_leaves " + treegen.vlist([rng.randint(1, 1 << 40) for _ in range(rng.choice([1, 2, 5, 9]))]))
+        for _ in range(rng.randint(1, 5)):
+            r = rng.random()
+            # (pmtree's fill_nodes walks everything left of the range inside the subtrees it enters: keep deep ranges
+            #  at the left edge of a subtree, and single leaves elsewhere)
+            start = rng.choice([0, 1, 2, 5, 8, 255, 256, 1 << 20, (1 << 20) + 1])      # the empty list is observed: keep the high-water mark small
+            nv = rng.choice([0, 1, 2, 3])
+            vs = treegen.vlist([treegen.val(rng) for _ in range(nv)])
+            if r < 0.35:
+                seq.append(f"rln set_leaves_from {hex(start)} {vs}")
+            elif r < 0.5:
+                seq.append("rln init_leaves " + treegen.vlist([treegen.val(rng) for _ in range(rng.choice([0, 1, 3]))]))
+            else:
+                rem = rng.sample([0, 1, 2, 3, 4, 5, 8, 9, 254, 255], rng.choice([0, 0, 1, 1, 2]))
+                seq.append(f"rln atomic {hex(start)} {vs} {','.join(hex(x) for x in rem) or '-'}")
+            seq += ["rln root", "rln leaves_set", "rln empty", f"rln get_leaf {hex(rng.choice([0, 1, 2, 3, 5, 8]))}", f"rln get_leaf {hex(start % (1 << 20))}"]
+        rs.append(seq)
+    run.differential("rln-batch-api-clean", [[l for l in s2 if not rln_shape(l)] for s2 in rs])
+    run.differential("rln-batch-api-defect-region", rs, classify=classify_rln)
     # batch initialisation == fresh tree + batch at 0 (RLN::init_tree_with_leaves is `tree new` + batch 0 vs [])
     run.rules.append("shape-directed batches (removals before/inside/after/interleaved with the written range, unsorted, duplicated, empty parts, out of range) mixed with single writes, appends, deletions, range writes; depths 2..6; every observable compared after every op; distinct = distinct op sequence")
 
-    def confirm(f):
-        w = f["witness"]
-        impl = core.run_impl(run.harness(), w["ops"])
-        spec = core.run_lean("spec", w["ops"])
-        if impl == spec:
-            return False, "impl now equals the ideal tree on the witness"
-        if impl[w["at"]] == w["observed"]:
-            return True, ""
-        return False, "DIFFERENT: " + impl[w["at"]][:200]
-    run.confirm_findings(confirm)
+    run.confirm_witnesses()
